@@ -62,6 +62,15 @@ PairStep(m, e, l) ==
             THEN V(m, "iteration-mismatch", l, tag)
        ELSE m
 
+\* a device attribute: the value must be classified as the data type its code says
+AttrStep(m, e, l) ==
+    LET tag == "attr " \o ToString(e.id)
+    IN IF e.panic THEN V(m, "panic", l, tag)
+       ELSE IF e.exp = "reject" /\ ObjectsOk(e) THEN V(m, "accepted-inexact", l, tag)
+       ELSE IF e.exp \notin {"reject", "either"} /\ ~ObjectsOk(e) THEN V(m, "rejected-own-encoding", l, tag)
+       ELSE IF e.exp \notin {"reject", "either"} /\ (Len(e.hs) # 1 \/ e.hs[1].attr # e.exp) THEN V(m, "wrong-summary", l, tag)
+       ELSE m
+
 FragStep(m, e, l) ==
     IF e.panic THEN V(m, "panic", l, e.src)
     ELSE IF ~e.agree THEN V(m, "peer-disagrees", l, e.src)
@@ -71,6 +80,7 @@ MonStep(m, e, l) ==
     LET m1 == [m EXCEPT !.n = @ + 1] IN
     CASE e.k = "case" -> CaseStep(m1, e, l)
       [] e.k = "pair" -> PairStep(m1, e, l)
+      [] e.k = "attr" -> AttrStep(m1, e, l)
       [] e.k = "frag" -> FragStep(m1, e, l)
       [] OTHER -> m
 =============================================================================
